@@ -106,7 +106,21 @@ class C14(F.PropCheck):
             'distinct by sha256 of the event text')
 
     # ---------------- builds
+    def regen_guard(self):
+        """another check may regenerate ALL translator groups from /repo between our translator run and our Coq build
+        (shared gen.py: an empty group list means every group).  Re-run our groups; when a generated .v is newer than its
+        .vo the proofs were checked against other constants: check them again."""
+        F.run_gen(self.gen_groups)
+        coq = os.path.join(F.VERIF, 'coq', 'Gen')
+        stale = [g for g in self.gen_groups
+                 if not os.path.exists(os.path.join(coq, g + '.vo')) or os.path.getmtime(os.path.join(coq, g + '.v')) > os.path.getmtime(os.path.join(coq, g + '.vo'))]
+        if stale:
+            cq = F.coq_build(self.prop_file)
+            if not cq['ok']: return 'proofs do not hold for the constants regenerated from the tree under test (%s): %s' % (', '.join(stale), '; '.join(cq.get('errors', [])[:2]) or cq['log'][-400:])
+        return None
+
     def build_impl(self):
+        self._guard_problem = self.regen_guard()      # reported in extra_quick; the implementation is run in any case
         exe_a, log = F.build_c('c14', DRV, config='mqtt', exclude=('supla_esp_cfgmode',), extra_srcs=EXTRA,
                                extra_flags=['-fsanitize-address-use-after-return=always', '-fwrapv', '-fno-sanitize=signed-integer-overflow'])
         if exe_a is None: return None, log
@@ -264,9 +278,9 @@ class C14(F.PropCheck):
             if esc_end: v = v[:max(0, len(v) - 3)].rstrip(b'%') ; v = re.sub(rb'%[0-9A-Fa-f]?$', b'', v) + rng.choice([b'%C3%A9', b'%41', b'%e9', b'%2B', b'%7f'])
             return v
         def num(n):
+            if rng.random() < 0.06: return rng.choice([b'123456789012', b'1234567890123', b'123456789012345', b'000000000000001', b'-12345678901234'])   # longer than intval
             if n == b'prt': return str(rng.choice([0, 1, 80, 1883, 65534, 65535, 65536, 65537, 70000, 131071, 131072 + 1883, 2**31 - 1, 2**31, 2**31 + 5, 2**32, 2**32 + 1, 2**32 + 1883,
                                                    -1, -1883, -65535, 99999999999, rng.randrange(0, 140000)])).encode() if rng.random() < 0.9 else rng.choice([b'01883', b'0000001883', b'00000', b'-0'])
-            if rng.random() < 0.06: return rng.choice([b'123456789012', b'1234567890123', b'123456789012345', b'000000000000001', b'-12345678901234'])   # longer than intval
             if n == b'qos': return rng.choice([b'0', b'1', b'2', b'3', b'9', b'10', b'25', b'-1', b'02', b'256', b'4294967297'])
             return str(rng.choice([-2, -1, 0, 1, 50, 99, 100, 101, 127, 128, 155, 200, 255, 256, 300, 355, 356, 357, 512 + 7, -128, -129, -255, -257, 65536, 2**32, 2**32 + 5, 2**31, rng.randrange(-300, 600)])).encode()
         order = [n for n in texts if rng.random() < 0.85]
@@ -505,6 +519,8 @@ class C14(F.PropCheck):
         v = []
         if status != 'ok':
             v.append('memory error while parsing the request (%s): access outside the segment / the settings record / a live object' % status)
+        if any(k in ('PVOVERRUN', 'PPVOVERRUN') for (k, _, _) in outs):
+            v.append('a numeric value was written past intval[12] of the parser state (on the 32-bit target: past the end of its allocation)')
         conns = self.split_events(case)
         for (kind, label) in (('SEG', ''), ('PSEG', '[plain build, stack filled with 0xAA] ')):
             so = [(ints, bytes(data)) for (k, ints, data) in outs if k == kind]
@@ -578,6 +594,7 @@ class C14(F.PropCheck):
 
     # ---------------- valgrind on the plain build (thorough tier): uninitialised reads
     def extra_quick(self, ctx):
+        if getattr(self, '_guard_problem', None): ctx['problems'].append('proof: ' + self._guard_problem)
         if ctx['tier'] != 'thorough' or not getattr(self, 'exe_plain', None): return
         cases = self.corpus_cases()[:40] + self.gen_cases(ctx['rng'], 40, 'valgrind')[:40]
         inp = F.render_cases(cases)
